@@ -7,11 +7,19 @@ conv     for every dimension n in 1..8: sigma on the uniform grid 0.01, 0.02 ...
          with 30 digits - not scipy's gammaincc / gammainccinv which the code calls.
 profile  a small fitted XYFit (model linear in its parameters, y-uncertainties only, so that the profile cost is an exact
          parabola with a closed form) on both minimizer backends: the complete product of interval specifications (central CL,
-         one-sided CL next to a given lower / upper bound, given bounds only) x subtract_min x arrows x parameter; the arrow
-         specifications returned next to the profile are compared with min cost + sigma_i^2 and the outside probability.
+         one-sided CL next to a given lower / upper bound, given bounds only, the `sigma` half width alone and next to each
+         of them) x subtract_min x arrows x parameter; the arrow specifications returned next to the profile are compared with
+         min cost + sigma_i^2 and the outside probability, and the profiled interval itself (first / last abscissa and the cost
+         there) with the interval the specification describes: sigma(cl) for a central level, sigma(2 cl - 1) on the open side of
+         a one-sided one, the given bounds, +- sigma; the public ContoursProfiler.get_profile has to span the same interval.
 contour  ContoursProfiler.get_contours on the iminuit backend for every parameter pair and a list of sigma values; the `cl`
          keyword that reaches iminuit.Minuit.mncontour is observed by a spy wrapper installed from outside (no hook in kafe2),
          and the returned contour points are compared with the exact ellipse of the linear problem.
+scontour the same on the scipy backend for every contour algorithm that contour_method_kwargs can select: the heuristic grid
+         (level line `sigma` of the returned sqrt(cost rise) grid, extracted with contourpy) and 'beacon' (returned points).  One
+         complete beacon walk costs 10 - 30 s, so it runs in the thorough tier only; the quick tier (and the thorough tier for all
+         pairs and sigmas) observes the point the walk starts from - the root scipy.optimize.brentq hands back to kafe2, seen by
+         a spy wrapper that then abandons the computation - and compares its cost rise with sigma^2.
 """
 import math
 import warnings
@@ -24,15 +32,18 @@ PROPERTY = "C16"
 RULE = (
     "cases = (dimension n, grid point) for the conversions (sigma grid 0.01..8.00 step 0.01; 2000 CL values uniform in logit "
     "space between logit -30 and +30), (backend, model, parameter, interval specification, subtract_min, arrows) for the arrow "
-    "specifications of profile(), (model, parameter pair, sigma) for the contour level; every case is executed on the real "
+    "specifications and the profiled interval of profile(), (backend, contour algorithm, model, parameter pair, sigma) for the contour level; every case is executed on the real "
     "classes; non-trivial = the reference value is strictly inside (0, 1) and differs from its grid neighbours / the arrow "
-    "list is non-empty / mncontour was reached"
+    "list is non-empty or an end of the profiled interval is determined / mncontour was reached / a level line or start point was obtained"
 )
 ASSUMPTIONS = [
     "conversion values are compared absolutely in probability (1e-13): cl is computed by kafe2 as 1 - Q, so tiny confidence levels carry the absolute resolution of a double near 1",
     "round trips are judged in the well-conditioned direction: sigma -> cl -> sigma is accepted within 1e-13 * dsigma/dCL (at 8 sigma in one dimension 1 - CL is ~1e-15 and the round trip is skipped as vacuous); strict monotonicity is demanded where adjacent reference values differ by more than 1e-14, monotonicity (<=) everywhere",
     "arrow positions and heights are compared with the closed form of a model that is linear in its parameters with y-uncertainties only (exact parabola); the minimum cost and the parameter value are read from the fit itself",
-    "the contour level is checked on the iminuit backend (spy on Minuit.mncontour and the geometry of the returned points); the scipy backend's heuristic grid contour takes no confidence level and is not examined",
+    "the contour level is checked on the iminuit backend through a spy on Minuit.mncontour and the geometry of the returned points, on the scipy backend through the geometry only (mean cost rise on the level line / the returned points / the start point of the beacon walk = sigma^2; the 17 x 17 heuristic grid of the quick tier locates its line to 3 %, tolerance 10 %)",
+    "the complete 'beacon' walk (10 - 30 s per contour) is executed in the thorough tier only, for the first parameter pair and 3 sigma values; elsewhere the algorithm is observed at its start point (root returned by scipy.optimize.brentq) and then abandoned by an exception raised from the spy",
+    "the profiled interval is compared exactly only when no margin for arrows is requested (arrows=False); with arrows=True it must contain the specified interval and every arrow. A side for which none of low / high / cl / sigma is given has an undocumented default width and is not judged. `sigma` is taken in units of the uncertainty the fit reports",
+    "with subtract_min=True the iminuit backend subtracts the smallest value of the scan (iminuit's mnprofile semantics), not the cost at the optimum: the cost at the two ends of a profile is then judged through their difference only",
     "x_margin of an arrow specification is a plotting aid and not compared",
     "profile() is reached as fit._fitter.profile(...), the call ContoursProfiler makes: no public accessor returns the arrow specifications",
 ]
@@ -50,7 +61,10 @@ TOL_ARROW_CONV = 1e-11  # arrow y - (min + sigma_ref^2) relative to max(1, sigma
 TOL_ARROW_CL = 1e-12  # arrow 'cl' against the outside probability: measured 0 (same arithmetic)
 TOL_ARROW_X = 2e-3  # arrow x against the exact parabola, in units of the parameter uncertainty: measured worst 9.3e-6 (3 valuations, both backends)
 TOL_ARROW_COST = 1e-4  # cost at a user-given bound against the exact parabola, relative to max(1, rise): measured worst 8.6e-11
+TOL_RANGE_COST = 1e-4  # cost at the two ends of a profile against the exact parabola, relative to max(1, rise): measured worst 1.1e-5 (iminuit), 4.8e-7 (scipy) over all 27 specifications x 3 valuations x all parameters; the ends themselves: 9.3e-6 uncertainties (cl), 0 (given bounds, sigma)
 TOL_CONTOUR_CL = 1e-13  # cl keyword against 1 - exp(-sigma^2/2): measured 1.1e-16
+TOL_CONTOUR_START = 1e-5  # (rise at the start point of the beacon walk) / sigma^2 - 1: measured worst 9.2e-9 (brentq + constrained SLSQP)
+TOL_CONTOUR_GRID3 = 0.10  # level line of the 3-step heuristic grid (coarse, strongly correlated pair a-b of quad): measured worst 0.031; 5-step default 0.0004
 TOL_CONTOUR_GEOM = 0.05  # mean of (d^T C^-1 d) / sigma^2 over the contour points: measured within 0.002 of 1 (single points scatter by 4 %: mncontour tolerance)
 
 SIGMA_GRID_N = 800
@@ -139,7 +153,9 @@ def build_fit(model, v, backend):
     return fit, p
 
 
-# interval specifications: bounds are given in units of the (reference) parameter uncertainty below / above the optimum
+# interval specifications: bounds are given in units of the (reference) parameter uncertainty below / above the optimum.
+# A specification is (kind, arguments...) with kind = the '+'-joined list of the keywords it passes on:
+#   central / cl -> list of confidence levels, low / high -> one distance, lows / highs -> list of distances, sigma -> number
 SPECS_QUICK = [
     ("central", [0.6827]),
     ("central", [0.9]),
@@ -152,6 +168,12 @@ SPECS_QUICK = [
     ("high", 2.2),
     ("low+high", 1.2, 2.4),
     ("lows", [0.8, 1.9]),
+    # the `sigma` keyword (half width of the profiled interval in standard deviations) alone and next to the others
+    ("sigma", 1.0),
+    ("sigma", 2.5),
+    ("sigma+cl", 0.8, [0.9]),
+    ("sigma+cl", 2.5, [0.9]),
+    ("sigma+low", 1.0, 1.7),
 ]
 SPECS_MORE = [
     ("central", [0.5]),
@@ -160,28 +182,49 @@ SPECS_MORE = [
     ("high+cl", 2.1, [0.55, 0.9]),
     ("low+high", 0.5, 0.4),
     ("highs", [0.3, 1.1, 2.6]),
+    ("sigma", 0.3),
+    ("sigma+cl", 1.0, [0.6827, 0.9973]),
+    ("sigma+high", 1.5, 2.2),
+    ("sigma+low+cl", 1.0, 2.0, [0.9]),
+    ("sigma+high+cl", 1.5, 2.2, [0.8]),
 ]
 
 
+def spec_parts(spec):
+    """-> dict(sigma, lows, highs, cls, low_list, high_list); entries that the specification does not pass on are None"""
+    parts = dict(sigma=None, lows=None, highs=None, cls=None, low_list=False, high_list=False)
+    args = list(spec[1:])
+    for key in spec[0].split("+"):
+        a = args.pop(0)
+        if key == "sigma":
+            parts["sigma"] = float(a)
+        elif key in ("low", "lows"):
+            parts["lows"], parts["low_list"] = ([float(t) for t in a], True) if key == "lows" else ([float(a)], False)
+        elif key in ("high", "highs"):
+            parts["highs"], parts["high_list"] = ([float(t) for t in a], True) if key == "highs" else ([float(a)], False)
+        elif key in ("central", "cl"):
+            parts["cls"] = [float(t) for t in a]
+        else:
+            raise ValueError(spec)
+    if args:
+        raise ValueError(spec)
+    return parts
+
+
 def spec_kwargs(spec, center, err):
-    k = spec[0]
-    if k == "central":
-        return dict(cl=list(spec[1]) if len(spec[1]) > 1 else spec[1][0])
-    if k == "low+cl":
-        return dict(low=center - spec[1] * err, cl=list(spec[2]) if len(spec[2]) > 1 else spec[2][0])
-    if k == "high+cl":
-        return dict(high=center + spec[1] * err, cl=list(spec[2]) if len(spec[2]) > 1 else spec[2][0])
-    if k == "low":
-        return dict(low=center - spec[1] * err)
-    if k == "high":
-        return dict(high=center + spec[1] * err)
-    if k == "low+high":
-        return dict(low=center - spec[1] * err, high=center + spec[2] * err)
-    if k == "lows":
-        return dict(low=[center - d * err for d in spec[1]])
-    if k == "highs":
-        return dict(high=[center + d * err for d in spec[1]])
-    raise ValueError(spec)
+    q = spec_parts(spec)
+    kw = {}
+    if q["sigma"] is not None:
+        kw["sigma"] = q["sigma"]
+    if q["lows"] is not None:
+        vals = [center - d * err for d in q["lows"]]
+        kw["low"] = vals if q["low_list"] else vals[0]
+    if q["highs"] is not None:
+        vals = [center + d * err for d in q["highs"]]
+        kw["high"] = vals if q["high_list"] else vals[0]
+    if q["cls"] is not None:
+        kw["cl"] = list(q["cls"]) if len(q["cls"]) > 1 else q["cls"][0]
+    return kw
 
 
 def expected_arrows(spec, arrows):
@@ -189,42 +232,51 @@ def expected_arrows(spec, arrows):
     (distance of the user-given bound from the optimum in units of the reference uncertainty).
     Follows the documentation of ContoursProfiler.plot_profile: with a bound given, cl is the level of a one-sided interval
     (outside probability 1 - cl, cost rise that of the central interval of level 2 cl - 1); without bounds cl is central
-    (outside probability (1 - cl) / 2 on each side).  With arrows=True and no cl the levels default to 90, 95, 99 %."""
-    k = spec[0]
-    default = [0.90, 0.95, 0.99]
+    (outside probability (1 - cl) / 2 on each side).  With arrows=True, a bound given and no cl the levels default to
+    90, 95, 99 %.  `sigma` widens the profiled interval only and marks nothing."""
+    q = spec_parts(spec)
     out = []
-
-    def one_sided(side, cls):
-        for c in cls:
-            out.append((side, "cl", (ref_sigma_1d(2 * c - 1), 1 - c)))
-
-    def central(side, cls):
-        for c in cls:
-            out.append((side, "cl", (ref_sigma_1d(c), (1 - c) / 2)))
-
-    if k == "central":
-        central("left", spec[1])
-        central("right", spec[1])
-    elif k == "low+cl":
-        out.append(("left", "at", spec[1]))
-        one_sided("right", spec[2])
-    elif k == "high+cl":
-        one_sided("left", spec[2])
-        out.append(("right", "at", spec[1]))
-    elif k in ("low", "lows"):
-        for d in spec[1] if k == "lows" else [spec[1]]:
-            out.append(("left", "at", d))
-        if arrows:
-            one_sided("right", default)
-    elif k in ("high", "highs"):
-        if arrows:
-            one_sided("left", default)
-        for d in spec[1] if k == "highs" else [spec[1]]:
-            out.append(("right", "at", d))
-    elif k == "low+high":
-        out.append(("left", "at", spec[1]))
-        out.append(("right", "at", spec[2]))
+    if q["lows"] is None and q["highs"] is None and q["cls"] is None:
+        return out
+    cls = q["cls"] if q["cls"] is not None else ([0.90, 0.95, 0.99] if arrows else [])
+    one_sided = q["lows"] is not None or q["highs"] is not None
+    for side, given in (("left", q["lows"]), ("right", q["highs"])):
+        if given is not None:
+            for d in given:
+                out.append((side, "at", d))
+        else:
+            for c in cls:
+                out.append((side, "cl", (ref_sigma_1d(2 * c - 1), 1 - c) if one_sided else (ref_sigma_1d(c), (1 - c) / 2)))
     return out
+
+
+def expected_range(spec, o):
+    """The interval that profile() has to span when no margin for drawing arrows is requested (arrows=False), following the
+    documentation of ContoursProfiler.get_profile: `low` / `high` are the bounds, `cl` is 'the confidence level of the profiled
+    region' (central without a bound, one-sided next to a given bound), `sigma` is the 'number of std deviations to deviate at
+    least from the optimal value in either direction'.
+    -> [(x_left, tolerance) or None, (x_right, tolerance) or None]; None = this end is not determined by the specification
+    (a side without any of low / high / cl / sigma gets an undocumented default width)."""
+    q = spec_parts(spec)
+    one_sided = q["lows"] is not None or q["highs"] is not None
+    ends = []
+    for sign, given in ((-1.0, q["lows"]), (1.0, q["highs"])):
+        cand = []
+        if given is not None:
+            cand.append((o["center"] + sign * max(given) * o["ref_err"], 1e-9 * o["ref_err"]))
+        elif q["cls"] is not None:
+            c = max(q["cls"])
+            s_ref = ref_sigma_1d(2 * c - 1) if one_sided else ref_sigma_1d(c)
+            cand.append((o["ref_center"] + sign * s_ref * o["ref_err"], TOL_ARROW_X * o["ref_err"]))
+        if q["sigma"] is not None:
+            # in units of the uncertainty the fit itself reports (numerical on the scipy backend)
+            cand.append((o["center"] + sign * q["sigma"] * o["err"], 1e-9 * o["ref_err"]))
+        if not cand:
+            ends.append(None)
+        else:
+            x = max(sign * t[0] for t in cand) * sign  # the outermost one
+            ends.append((x, max(t[1] for t in cand)))
+    return ends
 
 
 # ----------------------------------------------------------------------------------------------------------------------
@@ -243,7 +295,7 @@ def jobs(tier, seed):
             for model in ("lin", "quad"):
                 names = MODELS[model][1]
                 pars = names if tier == "thorough" else ([names[0], names[-1]] if model == "lin" else [names[1]])
-                nchunk = 3 if backend == "scipy" else 1
+                nchunk = 5 if backend == "scipy" else 1
                 for par in pars:
                     for sm in (False, True):
                         for arrows in (True, False):
@@ -251,8 +303,21 @@ def jobs(tier, seed):
                                 specs.append(("profile", backend, model, vv, par, sm, arrows, chunk, nchunk, tier))
         for model in ("lin", "quad"):
             specs.append(("contour", model, vv, tier))
+            npairs = len(_pairs(model))
+            # scipy backend: the default grid algorithm per parameter pair, the start of the beacon walk for all pairs in one job
+            for k in range(npairs):
+                specs.append(("scontour", "grid3", model, vv, (k,), tuple(_scontour_sigmas("grid3", tier)), tier))
+            specs.append(("scontour", "beacon-start", model, vv, tuple(range(npairs)), tuple(_scontour_sigmas("beacon-start", tier)), tier))
+            if tier == "thorough":
+                for k in range(npairs):
+                    specs.append(("scontour", "grid-default", model, vv, (k,), tuple(_scontour_sigmas("grid-default", tier)), tier))
+                specs.append(("scontour", "grid-explicit", model, vv, (0,), tuple(_scontour_sigmas("grid-explicit", tier)), tier))
+                # the complete beacon walk costs 10 - 30 s per contour: first pair (lin: and its transpose), one job per sigma
+                for k in [0] + ([npairs - 1] if model == "lin" else []):
+                    for sg in _scontour_sigmas("beacon", tier):
+                        specs.append(("scontour", "beacon", model, vv, (k,), (sg,), tier))
     # heavy (scipy) jobs first; job 0 (re-run for the determinism check) is a light one that fits and profiles
-    specs.sort(key=lambda s: 0 if (s[0] == "profile" and s[1] == "scipy") else 1)
+    specs.sort(key=lambda s: 0 if (s[0] == "scontour" and s[1] == "beacon") else 1 if (s[0] == "profile" and s[1] == "scipy") else 2 if s[0] == "scontour" else 3)
     k = [i for i, s in enumerate(specs) if s[0] == "profile" and s[1] == "iminuit"][0]
     specs.insert(0, specs.pop(k))
     return specs
@@ -265,11 +330,16 @@ def bound(tier, seed):
     return (
         "conversions: n = 1..8 x 800 sigma values (0.01..8.00) x 2000 CL values (logit -30..30), all enumerated; "
         "profile arrows: 2 backends x models {lin, quad} x %s x %d interval specifications x subtract_min {F,T} x arrows {F,T}; "
-        "contour: iminuit, all parameter pairs of both models x %d sigma values; valuation(s) %s"
+        "profiled interval [x_first, x_last] and the cost at both ends for every one of these cases, public get_profile on iminuit; "
+        "contour: iminuit, all parameter pairs of both models x %d sigma values; scipy: heuristic grid with 3 refinement steps x all pairs x %d sigma values, "
+        "start point of the beacon walk x all pairs x %d sigma values%s; valuation(s) %s"
         % (
             "all parameters" if tier == "thorough" else "parameters {a, b} of lin and {b} of quad",
             len(SPECS_QUICK) + (len(SPECS_MORE) if tier == "thorough" else 0),
             len(_contour_sigmas(tier)),
+            len(_scontour_sigmas("grid3", tier)),
+            len(_scontour_sigmas("beacon-start", tier)),
+            ", heuristic grid with default settings x all pairs x 4 sigma values (algorithm named explicitly: first pair), complete beacon walk x first pair x 3 sigma values" if tier == "thorough" else " (complete beacon walk: thorough tier only)",
             (seed % 3) if tier == "quick" else "0,1,2",
         )
     )
@@ -601,6 +671,21 @@ def run_profile_case(backend, model, v, par, sm, arrows, spec):
             out["exc"] = type(e).__name__ + ": " + str(e)[:120]
             return out
     out["arrows"] = None if arr is None else [dict(side=a["side"], x=float(a["x"]), y=float(a["y"]), cl=float(a["cl"])) for a in arr]
+    out["xs"] = [float(t) for t in _xy[0]]
+    out["ys"] = [float(t) for t in _xy[1]]
+    if backend == "iminuit" and not arrows:
+        # the public accessor ContoursProfiler.get_profile (no arrows, no margins) on a fresh fit: must span the same interval
+        from kafe2 import ContoursProfiler
+
+        fit2, _p2 = build_fit(model, v, backend)
+        with warnings.catch_warnings():
+            warnings.simplefilter("ignore")
+            try:
+                pub = ContoursProfiler(fit2).get_profile(par, points=5, subtract_min=sm, **kw)
+                out["pub_xs"] = [float(t) for t in pub[0]]
+                out["pub_ys"] = [float(t) for t in pub[1]]
+            except Exception as e:  # noqa: BLE001
+                out["pub_exc"] = type(e).__name__ + ": " + str(e)[:120]
     return out
 
 
@@ -643,6 +728,45 @@ def judge_profile(spec, sm, arrows, o):
                 outside = 0.5 * math.erfc(math.sqrt(0.5 * rise_rep))
                 if not abs(g["cl"] - outside) <= 1e-9:
                     bad.append(("arrow.cl:" + tag, outside, g["cl"], "wrong-value"))
+    bad.extend(judge_range(spec, sm, arrows, o))
+    return bad
+
+
+def judge_range(spec, sm, arrows, o):
+    """The profiled interval: the values of low / high / sigma / cl as they arrive at the profile computation."""
+    bad = []
+    xs, ys = o["xs"], o["ys"]
+    ends = expected_range(spec, o)
+    rises = []
+    for (name, got_x, got_y), end in zip((("left", xs[0], ys[0]), ("right", xs[-1], ys[-1])), ends):
+        if not arrows:
+            # no margin requested: the interval is exactly the one that was specified
+            if end is not None and not abs(got_x - end[0]) <= end[1]:
+                bad.append(("profile.range:" + name, end[0], got_x, "wrong-value"))
+        # the cost reported at the end point is the exact parabola there (so a cl interval ends at the rise sigma(cl)^2);
+        # with subtract_min the iminuit backend subtracts the smallest value of the scan, not the cost at the optimum: only the
+        # difference between the two ends is judged then (below)
+        rise = ((got_x - o["ref_center"]) / o["ref_err"]) ** 2
+        rises.append(rise)
+        if not sm and not abs(got_y - o["min_cost"] - rise) <= TOL_RANGE_COST * max(1.0, rise):
+            bad.append(("profile.end_cost:" + name, o["min_cost"] + rise, got_y, "wrong-value"))
+    if sm and not abs((ys[-1] - ys[0]) - (rises[1] - rises[0])) <= TOL_RANGE_COST * max(1.0, max(rises)):
+        bad.append(("profile.end_cost:right-left", rises[1] - rises[0], ys[-1] - ys[0], "wrong-value"))
+    if arrows:
+        # with a margin for drawing: at least everything that was specified and every arrow lies inside
+        lo = [a["x"] for a in (o["arrows"] or [])] + [e[0] + e[1] for e in ends[:1] if e is not None]
+        hi = [a["x"] for a in (o["arrows"] or [])] + [e[0] - e[1] for e in ends[1:] if e is not None]
+        if lo and not xs[0] <= min(lo) + 1e-9 * o["ref_err"]:
+            bad.append(("profile.range:left", "<= %r" % min(lo), xs[0], "wrong-value"))
+        if hi and not xs[-1] >= max(hi) - 1e-9 * o["ref_err"]:
+            bad.append(("profile.range:right", ">= %r" % max(hi), xs[-1], "wrong-value"))
+    if "pub_exc" in o:
+        bad.append(("get_profile", "no exception", o["pub_exc"], "exception:" + o["pub_exc"].split(":")[0]))
+    elif "pub_xs" in o:
+        if not (len(o["pub_xs"]) == len(xs) and np.allclose(o["pub_xs"], xs, rtol=0, atol=1e-7 * o["ref_err"])):
+            bad.append(("get_profile.range", [xs[0], xs[-1]], [o["pub_xs"][0], o["pub_xs"][-1]], "wrong-value"))
+        elif not np.allclose(o["pub_ys"], ys, rtol=0, atol=TOL_RANGE_COST * max(1.0, max(ys) - min(ys))):
+            bad.append(("get_profile.cost", ys, o["pub_ys"], "wrong-value"))
     return bad
 
 
@@ -663,9 +787,16 @@ def run_profile(res, backend, model, v, par, sm, arrows_list, chunk, nchunk, tie
             bad = judge_profile(spec, sm, arrows, o)
             n_arr = len(o.get("arrows") or [])
             res.evaluations += max(1, 3 * n_arr)
-            if n_arr:
+            if "xs" in o:
+                n_ends = sum(1 for e in expected_range(spec, o) if e is not None)
+                res.evaluations += 2 + n_ends + (2 if "pub_xs" in o else 0)
+                res.facts["profile-range-ends:%s" % ("exact" if not arrows else "contained")] += n_ends
+                res.facts["profile-range-kind:%s" % ("cl" if spec_parts(spec)["cls"] is not None else "no-cl")] += 1
+                if "pub_xs" in o:
+                    res.facts["profile-public-route"] += 1
+            if n_arr or "xs" in o:
                 res.nontriv(key)
-            res.observe((key, [(a["side"], round(a["y"], 6), round(a["cl"], 9)) for a in (o.get("arrows") or [])], o.get("exc")))
+            res.observe((key, [(a["side"], round(a["y"], 6), round(a["cl"], 9)) for a in (o.get("arrows") or [])], [round(t, 6) for t in o.get("xs", [])[:: max(1, len(o.get("xs", [])) - 1)]], o.get("exc")))
             res.facts["profile:%s" % backend] += 1
             res.facts["profile-spec:%s" % spec[0]] += 1
             res.facts["profile-arrows-compared"] += n_arr
@@ -752,10 +883,8 @@ def judge_contour(sigmas, o):
 
 
 def run_contour(res, model, v, tier):
-    names = MODELS[model][1]
     sigmas = _contour_sigmas(tier)
-    pairs = [(names[i], names[j]) for i in range(len(names)) for j in range(len(names)) if i < j]
-    pairs += [(pairs[0][1], pairs[0][0])]
+    pairs = _pairs(model)
     for pair in pairs:
         o = run_contour_case(model, v, pair, sigmas)
         res.executions += 1
@@ -781,6 +910,184 @@ def run_contour(res, model, v, tier):
 
 
 # ----------------------------------------------------------------------------------------------------------------------
+# contour level on the scipy backend: every contour algorithm of MinimizerScipyOptimize.contour, selected through the public
+# ContoursProfiler(contour_method_kwargs=...)
+
+SCIPY_ALGOS = {
+    # name: (contour_method_kwargs, probe)
+    "grid3": (dict(iterations=3), False),  # default algorithm (heuristic grid), 3 refinement steps instead of 5: 17 x 17 grid
+    "grid-default": (None, False),  # no method kwargs at all
+    "grid-explicit": (dict(algorithm="heuristic_grid"), False),
+    "beacon": (dict(algorithm="beacon"), False),  # walks along the contour: ~80 steps x (21 + gradient) constrained minimisations
+    "beacon-start": (dict(algorithm="beacon"), True),  # the same call, observed at and cut short after its first step
+}
+
+
+class _ProbeDone(Exception):
+    pass
+
+
+def _level_points(cont):
+    """-> 2 x N points on the line that the contour object describes, closed flag"""
+    if cont.xy_points is not None:
+        return np.asarray(cont.xy_points, dtype=float), None
+    import contourpy
+
+    # grid contour: the line is the level `sigma` of grid_z = sqrt(cost - min) (this is what plot_contours draws)
+    lines = contourpy.contour_generator(np.asarray(cont.grid_x), np.asarray(cont.grid_y), np.asarray(cont.grid_z).T).lines(float(cont.sigma))
+    if not lines:
+        return None, None
+    line = np.asarray(max(lines, key=len), dtype=float)
+    return line.T, bool(np.allclose(line[0], line[-1]))
+
+
+def run_scontour_case(algo, model, v, pair, sigmas):
+    """ContoursProfiler.get_contours on the scipy backend.  -> dict(levels=[...]).
+    With probe=True each sigma gets a fit of its own; a spy on scipy.optimize.brentq (installed from outside, no hook in kafe2)
+    records the root the beacon algorithm starts its walk from and then abandons the computation."""
+    import scipy.optimize as so
+    from kafe2 import ContoursProfiler
+
+    kwargs, probe = SCIPY_ALGOS[algo]
+    out = dict(levels=[])
+    fit, p = build_fit(model, v, "scipy")
+    ids = [p["names"].index(pair[0]), p["names"].index(pair[1])]
+    cinv = np.linalg.inv(p["cov"][np.ix_(ids, ids)])
+    center = p["phat"][ids]
+
+    def level(clobj, cont, s):
+        lev = dict(sigma=float(s), cl_obj_cl=float(clobj.cl), cl_obj_sigma=float(clobj.sigma), cl_obj_ndim=int(clobj.ndim))
+        if cont is not None:
+            pts, closed = _level_points(cont)
+            lev["contour_sigma"] = float(cont.sigma)
+            if pts is not None:
+                d = pts - center[:, None]
+                q = np.einsum("in,ij,jn->n", d, cinv, d)
+                lev["geom"] = float(np.mean(q)) / s**2
+                lev["n_points"] = int(pts.shape[1])
+                if closed is not None:
+                    lev["closed"] = closed
+        return lev
+
+    with warnings.catch_warnings():
+        warnings.simplefilter("ignore")
+        if not probe:
+            import contextlib
+            import io
+
+            try:
+                with contextlib.redirect_stdout(io.StringIO()):  # the beacon algorithm prints when it steps back
+                    cp = ContoursProfiler(fit, contour_sigma_values=tuple(sigmas), contour_method_kwargs=None if kwargs is None else dict(kwargs))
+                    conts = cp.get_contours(pair[0], pair[1])
+            except Exception as e:  # noqa: BLE001
+                out["exc"] = type(e).__name__ + ": " + str(e)[:120]
+                return out
+            for k, (clobj, cont) in enumerate(conts):
+                out["levels"].append(level(clobj, cont, float(sigmas[k])))
+            return out
+        for s in sigmas:
+            fit, p = build_fit(model, v, "scipy")
+            c0 = np.array([float(fit.parameter_values[i]) for i in ids])
+            e0 = float(fit.parameter_errors[ids[0]])
+            calls = []
+            orig = so.brentq
+
+            def spy(f, a, b, *args, **kw):
+                r = orig(f, a, b, *args, **kw)
+                calls.append(float(r))
+                raise _ProbeDone()
+
+            so.brentq = spy
+            conts = None
+            try:
+                cp = ContoursProfiler(fit, contour_sigma_values=(s,), contour_method_kwargs=dict(kwargs))
+                conts = cp.get_contours(pair[0], pair[1])
+            except _ProbeDone:
+                pass
+            except Exception as e:  # noqa: BLE001
+                out["exc"] = type(e).__name__ + ": " + str(e)[:120]
+                return out
+            finally:
+                so.brentq = orig
+            if conts is not None:  # the root finder was not reached: judge the complete contour instead
+                out["levels"].append(level(conts[0][0], conts[0][1], float(s)))
+                continue
+            # start of the walk: parameter 1 moved by root x its uncertainty, parameter 2 at its optimum, others profiled
+            d = c0 + np.array([calls[0] * e0, 0.0]) - center
+            lev = dict(sigma=float(s), start_root=calls[0], geom=float(d.dot(cinv).dot(d)) / s**2, n_points=1, probe=True)
+            out["levels"].append(lev)
+    return out
+
+
+def judge_scontour(algo, sigmas, o):
+    if "exc" in o:
+        return [("contour", "no exception", o["exc"], "exception:" + o["exc"].split(":")[0])]
+    bad = []
+    if len(o["levels"]) != len(sigmas):
+        bad.append(("contour.count", len(sigmas), len(o["levels"]), "wrong-value"))
+    for lev in o["levels"]:
+        s = lev["sigma"]
+        exp = -math.expm1(-0.5 * s * s)
+        if "cl_obj_cl" in lev and not (abs(lev["cl_obj_cl"] - exp) <= TOL_CONTOUR_CL and lev["cl_obj_ndim"] == 2 and lev["cl_obj_sigma"] == s):
+            bad.append(("contour.confidence_level", dict(cl=exp, sigma=s, ndim=2), dict(cl=lev["cl_obj_cl"], sigma=lev["cl_obj_sigma"], ndim=lev["cl_obj_ndim"]), "wrong-value"))
+        if "geom" in lev:
+            tol = TOL_CONTOUR_START if lev.get("probe") else TOL_CONTOUR_GRID3 if algo == "grid3" else TOL_CONTOUR_GEOM
+            if not abs(lev["geom"] - 1.0) <= tol:
+                bad.append(("contour.start" if lev.get("probe") else "contour.points", "mean rise = sigma^2 = %g" % (s * s), "mean rise = %g" % (lev["geom"] * s * s), "wrong-value"))
+            if lev.get("closed") is False:
+                bad.append(("contour.closed", "a closed line inside the grid", "open line", "wrong-value"))
+        else:
+            bad.append(("contour.points", "a contour", None, "wrong-value"))
+        if "contour_sigma" in lev and lev["contour_sigma"] != s:
+            bad.append(("contour.sigma", s, lev["contour_sigma"], "wrong-value"))
+    return bad
+
+
+def _scontour_sigmas(algo, tier):
+    if algo == "beacon-start":
+        return _contour_sigmas(tier)
+    if algo == "grid3":
+        return [0.5, 1.5, 3.0] if tier == "quick" else _contour_sigmas(tier)  # 1 and 2 sigma with default settings: see C07
+    if algo == "beacon":
+        return [0.5, 2.0, 3.0]
+    return [0.5, 1.0, 2.0, 3.0]
+
+
+def _pairs(model):
+    names = MODELS[model][1]
+    pairs = [(names[i], names[j]) for i in range(len(names)) for j in range(len(names)) if i < j]
+    return pairs + [(pairs[0][1], pairs[0][0])]
+
+
+def run_scontour(res, algo, model, v, pair_ids, sigmas):
+    pairs = [_pairs(model)[k] for k in pair_ids]
+    for pair in pairs:
+        o = run_scontour_case(algo, model, v, pair, sigmas)
+        res.executions += 1
+        res.transitions += 3 + len(sigmas)
+        bad = judge_scontour(algo, sigmas, o)
+        for lev in o["levels"]:
+            key = ("scontour", algo, model, v, pair, lev["sigma"])
+            res.state(key)
+            res.evaluations += 4
+            if "geom" in lev:
+                res.nontriv(key)
+                res.facts["scipy-contour-level:%s" % ("beacon" if algo.startswith("beacon") else "grid")] += 1
+                if lev["sigma"] != 1.0:
+                    res.facts["scipy-contour-level-not-1:%s" % ("beacon" if algo.startswith("beacon") else "grid")] += 1
+        res.observe(("scontour", algo, model, v, pair, [(lev["sigma"], round(lev.get("geom", -1.0), 5), lev.get("n_points")) for lev in o["levels"]], o.get("exc")))
+        res.outcomes[("contour", "scipy", algo, model, "MISMATCH" if bad else "ok")] += 1
+        hist = dict(kind="scontour", algo=algo, model=model, v=v, pair=list(pair), sigmas=list(sigmas))
+        seen = set()
+        for obs_name, exp, act, mode in bad:
+            if obs_name in seen:
+                continue
+            seen.add(obs_name)
+            res.violation("contour|scipy:%s|%s" % (algo, model), hist, obs_name, exp, act, mode)
+    res.sample(dict(kind="scontour", algorithm=algo, model=model, valuation=v, pairs=[list(p) for p in pairs], sigmas=list(sigmas)))
+
+
+# ----------------------------------------------------------------------------------------------------------------------
 
 
 def run_job(spec):
@@ -798,6 +1105,9 @@ def run_job(spec):
     elif kind == "contour":
         _, model, v, tier = spec
         run_contour(res, model, v, tier)
+    elif kind == "scontour":
+        _, algo, model, v, pair_ids, sigmas, tier = spec
+        run_scontour(res, algo, model, v, list(pair_ids), list(sigmas))
     else:
         raise ValueError(spec)
     return res.as_dict()
@@ -837,6 +1147,11 @@ def replay(history):
         o = run_profile_case(h["backend"], h["model"], h["v"], h["par"], bool(h["subtract_min"]), bool(h["arrows"]), spec)
         bad = judge_profile(spec, bool(h["subtract_min"]), bool(h["arrows"]), o)
         out = [dict(observable=c.split(":")[0], expected=e, actual=a, mode=m) for c, e, a, m in bad]
+    elif kind == "scontour":
+        sig = [float(t) for t in h["sigmas"]]
+        o = run_scontour_case(h["algo"], h["model"], h["v"], tuple(h["pair"]), sig)
+        bad = judge_scontour(h["algo"], sig, o)
+        out = [dict(observable=c, expected=e, actual=a, mode=m) for c, e, a, m in bad]
     elif kind == "contour":
         o = run_contour_case(h["model"], h["v"], tuple(h["pair"]), [float(s) for s in h["sigmas"]])
         bad = judge_contour([float(s) for s in h["sigmas"]], o)
@@ -849,9 +1164,12 @@ def vacuity_guards(tot, tier):
     yield "strict monotonicity demanded on more than 5000 sigma pairs and 15000 cl pairs", tot.facts.get("strict-pairs:sigma", 0) > 5000 and tot.facts.get("strict-pairs:cl", 0) > 15000
     yield "sigma round trip judged (well conditioned) on more than 5000 grid points", tot.facts.get("sigma-roundtrip:judged", 0) > 5000
     yield "profile arrows compared on both backends", tot.facts.get("profile:iminuit", 0) > 0 and tot.facts.get("profile:scipy", 0) > 0
-    yield "central, one-sided and given-bound specifications all reached", all(tot.facts.get("profile-spec:" + k, 0) > 0 for k in ("central", "low+cl", "high+cl", "low", "high", "low+high"))
+    yield "central, one-sided, given-bound and sigma specifications all reached", all(tot.facts.get("profile-spec:" + k, 0) > 0 for k in ("central", "low+cl", "high+cl", "low", "high", "low+high", "sigma", "sigma+cl", "sigma+low"))
     yield "more than 100 arrows compared", tot.facts.get("profile-arrows-compared", 0) > 100
     yield "the cl keyword reaching Minuit.mncontour was observed", tot.facts.get("mncontour-observed", 0) > 0
+    yield "profiled interval compared exactly at more than 100 ends, for specifications with and without a confidence level", tot.facts.get("profile-range-ends:exact", 0) > 100 and tot.facts.get("profile-range-kind:cl", 0) > 0 and tot.facts.get("profile-range-kind:no-cl", 0) > 0
+    yield "public get_profile compared", tot.facts.get("profile-public-route", 0) > 0
+    yield "scipy contours at a level other than 1 sigma obtained from the grid and the beacon algorithm", tot.facts.get("scipy-contour-level-not-1:grid", 0) > 0 and tot.facts.get("scipy-contour-level-not-1:beacon", 0) > 0
     yield "more than 20 outcome classes", len(tot.outcomes) > 20
 
 
